@@ -1,0 +1,30 @@
+//go:build verif
+
+package tiered
+
+import (
+	"io"
+
+	"github.com/uber/kraken/lib/store/memory"
+)
+
+// VerifHook, when set by a verification harness, is called at named points of the
+// flusher (build tag "verif" only). A blocking hook acts as a scheduler gate.
+var VerifHook func(point, key string)
+
+func verifPoint(point, key string) {
+	if h := VerifHook; h != nil {
+		h(point, key)
+	}
+}
+
+// VerifSetSeams replaces the memOpen / ioCopy test seams (nil restores the default).
+func VerifSetSeams(open func(mem *memory.Store, key string) (*memory.File, error), cp func(dst io.Writer, src io.Reader) (int64, error)) {
+	if open == nil {
+		open = func(mem *memory.Store, key string) (*memory.File, error) { return mem.Open(key) }
+	}
+	if cp == nil {
+		cp = io.Copy
+	}
+	memOpen, ioCopy = open, cp
+}
